@@ -19,3 +19,12 @@ package util
 // ---- arithmetic lemmas (proved by the solver in every check that uses them) ----
 //@ lemma aligned_mod: forall(a, x, m, trigger(x % m, a % m), m > 0 && a % m == 0 && a <= x && x < a + m ==> x % m == x - a)
 //@ lemma aligned_next: forall(a, m, trigger((a + m) % m), m > 0 && a % m == 0 ==> (a + m) % m == 0)
+
+//@ func CheckIsValiders
+//@   trusted
+//@   pure
+
+// interface contract (A9): a hasher always has a hash
+//@ func (Hasher).Hash
+//@   pure
+//@   ensures r0 != nil
